@@ -31,7 +31,7 @@ import (
 )
 
 // Signature of candidate defect P1 of DESIGN.md §5 as it shows through the
-// mirrored composite (see the report / comments in checkPanics).
+// mirrored composite (reported from world.run, "panics" section).
 const sigP1 = "localBlobReplicator.ReplicateSingle(refresh-in-progress source):cloned-buffer-panics-in-GetSizeBytes"
 
 const (
@@ -56,7 +56,6 @@ const (
 var opNames = []string{"Get", "Put", "FindMissing", "GetCapabilities", "GetFromComposite"}
 
 type object struct {
-	name  string
 	data  []byte
 	d     digest.Digest
 	place int     // bit 0: replica A, bit 1: replica B
